@@ -444,3 +444,55 @@ func (ex *Exec) arrayConstFacts(o *types.Var, v Val) []*Term {
 	}
 	return out
 }
+
+// bimapTableFacts: a package-level map whose values are BiMaps built by NewBiMap().Set(k, v)...
+// chains with uniform key / value types, and whose map type nothing else in the package creates
+// or writes: every present entry is a non-nil BiMap with those ghost type attributes.
+func (ex *Exec) bimapTableFacts(o *types.Var) []*Term {
+	mt, ok := o.Type().Underlying().(*types.Map)
+	if !ok {
+		return nil
+	}
+	pt, ok := mt.Elem().Underlying().(*types.Pointer)
+	if !ok {
+		return nil
+	}
+	if n, ok := pt.Elem().(*types.Named); !ok || n.Obj().Name() != "BiMap" {
+		return nil
+	}
+	cl, ok := unparen(ex.globalInit(o)).(*ast.CompositeLit)
+	if !ok || len(cl.Elts) == 0 {
+		return nil
+	}
+	var keyT, valT types.Type
+	for i, el := range cl.Elts {
+		kv, ok := el.(*ast.KeyValueExpr)
+		if !ok {
+			return nil
+		}
+		f, ok := ex.bimapFactsOf(kv.Value)
+		if !ok || f.keyT == nil || f.valT == nil {
+			return nil
+		}
+		if i > 0 && (!types.Identical(keyT, f.keyT) || !types.Identical(valT, f.valT)) {
+			return nil
+		}
+		keyT, valT = f.keyT, f.valT
+	}
+	if !ex.mapTypeExclusive(o.Type(), cl) {
+		return nil
+	}
+	tmp := &State{vars: map[types.Object]Val{}, heap: map[string]*Term{}, ghost: map[string]Val{}}
+	mv := Val{T: o.Type(), C: []*Term{IntLit(0)}}
+	_, dom := tmp.mapDom(mv)
+	cs := flatten(mt.Elem())
+	_, h := tmp.mapValHeap(mv, cs[0])
+	DeclareFun("bimapValTag", []Sort{SInt}, SInt)
+	DeclareFun("bimapKeyTag", []Sort{SInt}, SInt)
+	m := BVar("tm", SInt)
+	k := BVar("tk", mapKeySort(o.Type()))
+	val := Select(Select(h, m), k)
+	ex.assumedExt["table fact: every entry of "+o.Name()+" is a non-nil BiMap from "+keyT.String()+" to "+valT.String()+" (read off its initialiser; no other statement of the package creates or writes a map of that type)"] = true
+	return []*Term{Forall([]*Term{m, k}, Implies(Select(Select(dom, m), k),
+		And(Neq(val, IntLit(0)), Eq(App("bimapValTag", SInt, val), typeTag(valT)), Eq(App("bimapKeyTag", SInt, val), typeTag(keyT)))), []*Term{val})}
+}
